@@ -1603,3 +1603,112 @@ pub mod verif_hooks {
         mzp.w
     }
 }
+
+/// Verification hooks (only with `--cfg yamaquasi_verif`): the private Fermat-number type
+/// `FInt` (word-level operations), the Fermat FFT, `_convolve_modn` with explicit packing
+/// parameters and read access to the tables of `MultiZmodP`, for differential testing.
+#[cfg(yamaquasi_verif)]
+pub mod verif_hooks_fint {
+    use super::*;
+
+    pub fn vh_fint_make<const N: usize>(w: &[u64], top: u64) -> FInt<N> {
+        let mut z = FInt::<N>::default();
+        z.0.copy_from_slice(w);
+        z.1 = top;
+        z
+    }
+    pub fn vh_fint_top<const N: usize>(x: &FInt<N>) -> u64 {
+        x.1
+    }
+    pub fn vh_fint_reduce<const N: usize>(x: &mut FInt<N>) {
+        x.reduce()
+    }
+    pub fn vh_fint_add<const N: usize>(x: &FInt<N>, y: &FInt<N>) -> FInt<N> {
+        x.add(y)
+    }
+    pub fn vh_fint_add_assign<const N: usize>(x: &mut FInt<N>, y: &FInt<N>) {
+        x.add_assign(y)
+    }
+    pub fn vh_fint_add_small<const N: usize>(x: &mut FInt<N>, y: u64) {
+        x.add_small(y)
+    }
+    pub fn vh_fint_sub<const N: usize>(x: &FInt<N>, y: &FInt<N>) -> FInt<N> {
+        x.sub(y)
+    }
+    pub fn vh_fint_sub_assign<const N: usize>(x: &mut FInt<N>, y: &FInt<N>) {
+        x.sub_assign(y)
+    }
+    pub fn vh_fint_mul<const N: usize>(x: &FInt<N>, y: &FInt<N>) -> FInt<N> {
+        x.mul(y)
+    }
+    pub fn vh_fint_twiddle<const N: usize>(x: &mut FInt<N>, i: u32, k: u32) {
+        x.twiddle(i, k)
+    }
+    pub fn vh_fint_shl<const N: usize>(x: &mut FInt<N>, s: u32) {
+        x.shl(s)
+    }
+    pub fn vh_fint_shr<const N: usize>(x: &mut FInt<N>, s: u32) {
+        x.shr(s)
+    }
+    pub fn vh_butterfly<const N: usize>(x: &mut FInt<N>, y: &mut FInt<N>) {
+        butterfly(x, y)
+    }
+    pub fn vh_fft<const N: usize>(src: &[FInt<N>], dst: &mut [FInt<N>], depth: u32, k: u32, fwd: bool) {
+        fft(src, dst, depth, k, fwd)
+    }
+    pub fn vh_convolve_raw<const N: usize>(
+        zn: &ZmodN,
+        size: usize,
+        logpack: u32,
+        stride: usize,
+        p: &[MInt],
+        q: &[MInt],
+        res: &mut [MInt],
+        offset: usize,
+    ) {
+        _convolve_modn::<N>(zn, size, logpack, stride, p, q, res, offset)
+    }
+
+    pub fn vh_mg_mul64(p: u64, x: u64, y: u64) -> u64 {
+        mg_mul64(p, x, y)
+    }
+    pub fn vh_mzp_k(mzp: &MultiZmodP) -> u32 {
+        mzp.k
+    }
+    pub fn vh_mzp_plen(mzp: &MultiZmodP) -> usize {
+        mzp.plen
+    }
+    pub fn vh_mzp_primes<'b>(mzp: &'b MultiZmodP) -> &'b [u64] {
+        &mzp.primes
+    }
+    pub fn vh_mzp_crt_pinv<'b>(mzp: &'b MultiZmodP) -> &'b [u64] {
+        &mzp.crt_pinv
+    }
+    pub fn vh_mzp_rpowers<'b>(mzp: &'b MultiZmodP) -> &'b [Vec<u64>] {
+        &mzp.rpowers
+    }
+    pub fn vh_mzp_crt_p<'b>(mzp: &'b MultiZmodP) -> &'b [U2048] {
+        &mzp.crt_p
+    }
+    pub fn vh_mzp_pprod(mzp: &MultiZmodP) -> U2048 {
+        mzp.pprod
+    }
+    pub fn vh_mzp_crt_p_modn<'b>(mzp: &'b MultiZmodP) -> &'b [U1024] {
+        &mzp.crt_p_modn
+    }
+    pub fn vh_mzp_pprods_modn<'b>(mzp: &'b MultiZmodP) -> &'b [U1024] {
+        &mzp.pprods_modn
+    }
+    pub fn vh_mzp_roots<'b>(mzp: &'b MultiZmodP, log: usize) -> &'b [u64] {
+        &mzp.roots[log]
+    }
+    pub fn vh_mzp_mul(mzp: &MultiZmodP, x: &mut [u64], y: &[u64]) {
+        mzp.mul(x, y)
+    }
+    pub fn vh_mzp_div_pow2(mzp: &MultiZmodP, x: &mut [u64], k: u32) {
+        mzp.div_pow2(x, k)
+    }
+    pub fn vh_mzp_ntt_inplace(mzp: &MultiZmodP, v: &mut [u64], depth: u32, k: u32, fwd: bool) {
+        mzp.ntt_inplace(v, depth, k, fwd)
+    }
+}
